@@ -65,10 +65,14 @@ IsSpanning(c) == HasPB(c) /\ (~c.newpage \/ c.pbrow # "column")
 RemovedCol(c, col) == col[1] = "s" \/ (col[1] = "g" /\ IsSpanning(c))
 \* positions (in the frame) of the displayed columns, in display order
 KeptIdx(c) == LET f == FrameCols(c) IN SelectSeq([k \in 1..Len(f) |-> k], LAMBDA k : ~RemovedCol(c, f[k]))
+\* width of the first row of the attribute as the caller wrote it
+RawWidth(c) == IF c.ushape \in {"col", "matrix"} THEN Len(FrameCols(c)) ELSE 1
 \* the harness' border patterns over ORIGINAL rows/columns (1-based): per column the style on odd columns,
 \* per cell the style where row + column is even
 UPat(c, style, r, j) == CASE c.ushape = "col" -> (IF (j - 1) % 2 = 0 THEN style ELSE "")
                           [] c.ushape = "matrix" -> (IF (r - 1 + j - 1) % 2 = 0 THEN style ELSE "")
+                          \* "rowpat": a per-row pattern of three entries (style, "", "") recycled down the table
+                          [] c.ushape = "rowpat" -> (IF (r - 1) % 3 = 0 THEN style ELSE "")
                           [] OTHER -> style
 UVec(c, style, r) == LET kk == KeptIdx(c) IN [k \in 1..Len(kk) |-> UPat(c, style, r, kk[k])]
 StyleVec(c, style) == [k \in 1..Len(KeptIdx(c)) |-> style]
@@ -95,7 +99,7 @@ Derive(c) ==
         subtxt |-> [r \in 1..c.n |-> IF HasSub(c) THEN SubText(c, r) ELSE ""],
         \* the caller's border matrices over the displayed columns, and border_top's first row as written
         utopm |-> [r \in 1..c.n |-> UVec(c, c.utop, r)], ubotm |-> [r \in 1..c.n |-> UVec(c, c.ubot, r)],
-        utop0raw |-> IF c.ushape = "scalar" THEN <<>> ELSE [j \in 1..Len(FrameCols(c)) |-> UPat(c, c.utop, 1, j)]]
+        utop0raw |-> IF c.ushape = "scalar" THEN <<>> ELSE [j \in 1..RawWidth(c) |-> UPat(c, c.utop, 1, j)]]
 
 
 =============================================================================
